@@ -66,6 +66,13 @@ class Boom(Exception):
     pass
 
 
+class BoomBase(BaseException):
+    """an exception that is not an Exception (like KeyboardInterrupt, asyncio.CancelledError, gevent.Timeout)"""
+
+
+EXCEPT_CLAUSE = "Exception"   # what a generated `% except` names; C13 switches it to BaseException for BoomBase runs
+
+
 class TooLarge(BaseException):
     """the document expands to more steps than the check wants to spend on one case"""
 
@@ -178,7 +185,7 @@ def emit_nodes(nodes, out):
         elif k == "TRY":
             out.append("\n% try:\n")
             emit_nodes(n[1], out)
-            out.append("\n% except Exception as e_:\n")
+            out.append("\n%% except %s as e_:\n" % EXCEPT_CLAUSE)
             out.append("[caught ${str(e_)}]")
             emit_nodes(n[2], out)
             out.append("\n% endtry\n")
@@ -471,7 +478,7 @@ class Model:
                 try:
                     self.run(n[1], scope)
                     self.write("\n")
-                except Exception as e:
+                except (Exception, BoomBase) as e:
                     assert len(self.buffers) == depth
                     self.events.add("handled")
                     self.write("[caught %s]" % e)
@@ -533,7 +540,7 @@ class Model:
         scope = {"vars": [], "defs": [], "caller": None, "loops": []}
         try:
             self.run(self.doc["body"], scope)
-        except Exception as e:
+        except (Exception, BoomBase) as e:
             # what the outermost buffer holds is discarded by render(); kept for render_context checks
             self.partial = "".join(self.buffers[0])
             return ("exc", e)
